@@ -24,7 +24,7 @@ RULE = (
 )
 ASSUMPTIONS = [
     "only objects returned by IndexedAssembly.find_overlaps are tracked (hand-built ones are ignored)",
-    "strands are +1/-1 (strand 0 is rejected by the statistics code and not generated)",
+    "for rows of unknown orientation (strand 0) a shortening from either side counts as a sub-interval of the source row",
     "a sequence ends at the first operation that raises; state after a raise is not judged",
 ]
 
@@ -45,9 +45,13 @@ def _kept(src_row, S, row):
         return None
     if row.start < src_row.start or row.end > src_row.end:
         return None
+    fwd = (S + (row.start - src_row.start), S + (row.end - src_row.start))
+    rev = (S + (src_row.end - row.end), S + (src_row.end - row.start))
     if src_row.strand == 1:
-        return S + (row.start - src_row.start), S + (row.end - src_row.start)
-    return S + (src_row.end - row.end), S + (src_row.end - row.start)
+        return fwd
+    if src_row.strand == -1:
+        return rev
+    return (fwd, rev)  # unknown orientation: a cut from either side is a sub-interval of the source row
 
 
 def _enter(args, kwargs):
@@ -122,14 +126,16 @@ def check_state(ctx, obj, op, extra=None):
             if r is sr:
                 ks, ke = S, E
             elif k in (0, n - 1) and (kept := _kept(sr, S, r)) is not None:
-                ks, ke = kept
+                alts = kept if isinstance(kept[0], tuple) else (kept,)
+                # only the outward side may have been shortened
+                alts = [(a, b) for a, b in alts if not (n > 1 and k == 0 and b != E) and not (n > 1 and k == n - 1 and a != S)]
+                if n == 1:
+                    alts = [ab for ab in alts if ab == (obj.start, obj.end)] or alts
+                if not alts:
+                    good = False
+                    break
+                ks, ke = alts[0]
                 short = short or (ks, ke) != (S, E)
-                if n > 1 and k == 0 and ke != E:
-                    good = False
-                    break
-                if n > 1 and k == n - 1 and ks != S:
-                    good = False
-                    break
             else:
                 good = False
                 break
@@ -321,7 +327,12 @@ def run_direct(shard, ctx):
     for i in range(shard["n"]):
         rng = rng_for(shard["seed"], "c18", shard["index"], i)
         rows = c12.gen_random_rows(rng, maxrows=12)
-        rows = [r if r[0] == "G" or r[4] != 0 else [*r[:4], 1, r[5]] for r in rows]
+        if rng.random() < 0.15 and len(rows) > 2:
+            # the same contig interval placed twice (first and last row equal but distinct objects)
+            fr = next((r for r in rows if r[0] == "F"), None)
+            if fr is not None:
+                rows = [list(fr), *rows[1:-1], list(fr)] if rng.random() < 0.5 else [*rows, list(fr)]
+                ctx.count("direct:duplicate-fragment-rows")
         total = sum((r[3] - r[2] + 1) if r[0] == "F" else r[1] for r in rows)
         a = rng.randint(1, total + 3)
         b = rng.randint(a, total + 10)
@@ -381,6 +392,7 @@ def gates(c, tier):
         "state:terminal-fragment-shortened": 50,
         "state:emptied": 10,
         "state:single-row": 100,
+        "direct:duplicate-fragment-rows": 100,
         "prediction-law:start": 50,
         "prediction-law:end": 50,
         "monitor_evals:trim_fragment": 50,
